@@ -9,6 +9,7 @@ from hypothesis import strategies as st
 
 from .. import gens, refs
 from ..runner import Sub
+from . import probes
 from .common import L, Checker, arr
 
 PROPERTY_ID = "C17"
@@ -21,6 +22,7 @@ RULE = ("(a) histories: a pool of values (arrays, lists, tuples, objects of ever
         "in which a result of one call is an argument of a later call, or a multi-valued receiver, or an augmented operator. "
         "Histories come from a Hypothesis RuleBasedStateMachine (sub-check 'machine': every table callable is a rule, oracle "
         "after every step), from a list-of-steps strategy, and from exhaustive single calls and ordered pairs.")
+RULE = RULE + probes.RULE_TEXT + (probes.AUG_TEXT if PROPERTY_ID in probes.AUG_PROPS else "")
 ASSUMPTIONS = ["returning a view of an argument is not a mutation", "callables needing a display or a file (plot, animate, printline) are excluded; counted in evidence",
                "random constructors are excluded from the repeat-call clause only"]
 
@@ -452,6 +454,8 @@ def gen_pairs(tier):
 
 
 def check_case(case):
+    if case.get("kind") in ("hist", "aug"):
+        return probes.run(case, PROPERTY_ID)
     if case["kind"] == "history":
         return _history(case)
     if case["kind"] == "table":
@@ -624,6 +628,8 @@ def _reflect(case):
 
 
 def classify(case):
+    if case.get("kind") in ("hist", "aug"):
+        return probes.classify(case)
     k = case["kind"]
     lab = {"kind:" + k: True}
     if k == "history":
@@ -655,4 +661,5 @@ def subchecks(tier):
         Sub("reflect", gen=gen_reflect, shards=(2, 4)),
         Sub("histories", strategy=s_history(12 if tier == "quick" else 40), n=(150, 3000), shards=(8, 16)),
         Sub("machine", machine=machine_spec, n=(30, 600), shards=(8, 16), steps=(10, 30)),
+        *probes.subs(PROPERTY_ID),
     ]
